@@ -222,4 +222,27 @@ def rules(facts):
                     p3.examined((f["def"], n.get("sp")), True)
                     p3.violate(f"int-only-let/{f['def']}", f"`{f['def']}` tests for Num::Int with if-let/let-else only: big integers fall into the other branch", where=n.get("sp"))
     out.append(p3.finish())
+
+    # ---------------- T9.5 one operator per operator implementation
+    t5 = Rule("T9.5", "each arithmetic operator of the number type computes with its own operator on every path: the machine fast path (checked_*), the big-integer fall-back "
+              "and the float path of `-` all subtract, those of `+` all add, and so on (a fall-back copied from another operator is exact but wrong, and only reached on overflow)", floor=5)
+    FAM = re.compile(r"core::ops::arith::(Add|Sub|Mul|Div|Rem|Neg)::|::(?:checked|wrapping|saturating|overflowing)_(add|sub|mul|div|rem|neg)$|^op:(Add|Sub|Mul|Div|Rem)$")
+    seen_ops = 0
+    for f in facts.hir("jaq_json"):
+        m_ = re.match(r"^<jaq_json::num::Num as core::ops::arith::(Add|Sub|Mul|Div|Rem|Neg)>::\w+$", f["def"])
+        if not m_:
+            continue
+        seen_ops += 1
+        fam = set()
+        for c in callees(f["body"]):
+            mm = FAM.search(c)
+            if mm:
+                fam.add(next(g for g in mm.groups() if g).capitalize())
+        t5.examined(m_.group(1), True, {"operator": m_.group(1), "operators_used_inside": sorted(fam)})
+        other = fam - {m_.group(1)}
+        if other:
+            t5.violate(f"operator/{m_.group(1)}", f"the implementation of `{m_.group(1)}` for numbers also computes with {sorted(other)}: one of its paths (fast path, big-integer fall-back, float path) applies another operator", where=f["sp"])
+    if seen_ops < 5:
+        t5.missing_anchor(f"operator implementations of jaq_json::num::Num ({seen_ops} found)")
+    out.append(t5.finish())
     return out
